@@ -59,6 +59,9 @@ M_C06(pre, a, obs, post) ==
             \cup If(\A u \in Users : ("O" \in M(post.subs[t][u].given) /\ "O" \notin M(pre.subs[t][u].given)) => actor = o \/ u = actor,
                     "OnlyOwnerGrantsOwnership")
           ELSE {})
+    \* only the owner deletes the topic for everybody (whether the topic is loaded or not)
+    \cup (IF Live(pre, t) /\ ~Live(post, t) /\ Cardinality(EffOwners(pre, t)) = 1
+          THEN If(Actor(a) \in EffOwners(pre, t), "OnlyOwnerDeletesTopic") ELSE {})
     : tt \in GrpTopics }
 
 \* ------------------------------------------------------------------ C03: only writers publish; rejects have no effect
@@ -184,6 +187,8 @@ M_C07(pre, a, obs, post) ==
                M(post.subs[t][u].want) \subseteq CP2P /\ M(post.subs[t][u].given) \subseteq CP2P, "P2PModesWithinJRWPA")
     \cup If(\A u \in Users : post.subs[t][u].st = "live" /\ (pre.subs[t][u] # post.subs[t][u]) /\ post.subs[t][u].given # <<>> =>
                "A" \in M(post.subs[t][u].given), "P2PKeepsApprove")
+    \cup If(\A u \in Users : post.subs[t][u].st = "live" /\ (pre.subs[t][u] # post.subs[t][u]) /\ post.subs[t][u].want # <<>> =>
+               "A" \in M(post.subs[t][u].want), "P2PKeepsApproveInWant")
     \cup If(post.cache[t].loaded => \A x \in AttOf(post.cache[t]) : x.u \in P2PUsers[t] /\ "J" \in M(post.cache[t].per[x.u].given), "P2PNoAttachWithoutJoinGrant")
     : tt \in P2PTopics }
 
